@@ -759,6 +759,8 @@ def directed_c05():
     D.append(("only_yieldfrom_plain_func_operand", [YF("MK(a)")]))
     D.append(("only_yieldfrom_recursive", [YF("R1(n, a)")]))
     D.append(("fallthrough_into_delegating_clause", [("raw", "switch a & 1 {\ncase 0:\n\trt.Emit(rt.EFF, 760)\n\tfallthrough\ncase 1:\n\tYieldFrom(H2(a))\n}"), Y("b")]))
+    D.append(("else_block_trivial_if_then_delegation", [("if", "g1", [Y("a + 1")], [("if", "g2", [("eff", 762)], None), YF("H2(b)"), Y("b + 2")]), Y("a + 3")]))
+    D.append(("else_block_trivial_if_then_shared_delegate", [("raw", "it := H1(a)"), ("if", "g1", [YF("it")], [("if", "g2", [("eff", 763)], None), ("raw", "it.MoveNext()"), YF("it")]), YF("it"), Y("b")]))
     D.append(("same_iter_twice", [("raw", "it := H1(a)"), YF("it"), YF("it"), Y("b")]))
     return D
 
@@ -829,6 +831,13 @@ def directed_c03():
     D.append(("multi_define_in_default_clause_after_yield", [("switch", None, "b & 1", [("0", [Y("a")])], [("decl", "x", "a + 1"), ("raw", "set := func(v int) { x = v }"), Y("x + 1"), ("raw", "x, y := b+2, a+3"), ("raw", "set(x + y)"), Y("x + 2")]), Y("b + 9")]))
     D.append(("multi_define_in_if_and_loop_after_yield", [("decl", "x", "a + 1"), ("raw", "get := func() int { return x }"), ("for", ("decl", "i", "0"), "i < n", ("inc", "i"), [Y("get() + i"), ("raw", "x, y := x+i, i"), Y("x + y")]), ("if", "g1", [Y("x"), ("raw", "x, z := b, 1"), Y("x + z + get()")], None), Y("get() + 9")]))
     D.append(("init_after_yield", [Y("a + 1"), ("for", ("decl", "x", "a"), "x < a + n", ("inc", "x"), [Y("x + 2")]), ("decl", "x", "b"), Y("x + 3")]))
+    # loop-variable identity: closures created in one iteration, called after the loop
+    D.append(("range_var_captured_escapes", [("raw", "var fs []func() int"), ("range", "_", "v", ":=", "[]int{a, b, a + b}", [("raw", "fs = append(fs, func() int { return v })"), Y("v + 1")]), ("raw", "for _, f := range fs {\n\tYield(f() + 1000)\n}")]))
+    D.append(("range_var_captured_escapes_noyield", [("raw", "var fs []func() int"), ("range", "k", "v", ":=", "[]int{a, b, a + b}", [("raw", "fs = append(fs, func() int { return k*100 + v })")]), ("raw", "for _, f := range fs {\n\tYield(f() + 1000)\n}")]))
+    D.append(("range_assign_var_captured_escapes", [("raw", "var fs []func() int\nvar v int"), ("range", "_", "v", "=", "[]int{a, b, a + b}", [("raw", "fs = append(fs, func() int { return v })"), Y("v + 1")]), ("raw", "for _, f := range fs {\n\tYield(f() + 1000)\n}")]))
+    D.append(("for_var_captured_escapes", [("raw", "var fs []func() int"), ("for", ("decl", "i", "0"), "i < n", ("inc", "i"), [("raw", "fs = append(fs, func() int { return i + a })"), Y("i + 1")]), ("raw", "for _, f := range fs {\n\tYield(f() + 1000)\n}")]))
+    D.append(("for_var_captured_escapes_noyield", [("raw", "var fs []func() int"), ("for", ("decl", "i", "0"), "i < n", ("inc", "i"), [("raw", "fs = append(fs, func() int { return i + a })")]), ("raw", "for _, f := range fs {\n\tYield(f() + 1000)\n}")]))
+    D.append(("for_var_captured_writer_escapes", [("raw", "var fs []func() int"), ("for", ("decl", "i", "0"), "i < n", ("inc", "i"), [("raw", "fs = append(fs, func() int { i += 10; return i + b })"), Y("i + 1")]), ("raw", "for _, f := range fs {\n\tYield(f() + 1000)\n}")]))
     D.append(("if_else_scopes", [("decl", "x", "a"), ("if", "g1", [("decl", "x", "b + 1"), Y("x + 2")], [("assign", "x", "x + 3"), Y("x + 4")]), Y("x + 5")]))
     return D
 
@@ -840,7 +849,10 @@ def plan_C03(ctx):
         rng = random.Random(ctx.seed * 977 + 3)
         n = 0
         for name, body in directed_c03():
-            corp.add(gen.Program("d_%s" % name, body, helpers=C01_HELPERS if "H2(" in repr(body) else "", named_result=(n % 2 == 0), family="scp", tags={"directed:" + name}))
+            tags = {"directed:" + name}
+            if name.startswith("range_var_captured"):
+                tags.add("range-var-captured-across-iterations")  # go < 1.22 sources: one variable per loop (F7)
+            corp.add(gen.Program("d_%s" % name, body, helpers=C01_HELPERS if "H2(" in repr(body) else "", named_result=(n % 2 == 0), family="scp", tags=tags))
             n += 1
         want = ctx.q(260, 2200)
         tries = 0
@@ -859,7 +871,25 @@ def plan_C03(ctx):
         "bounds": {"advances_K": K, "loop_bound_n": "[-1,3]", "outside": "program shapes not generated; closures escaping the generator (C06/C13); Go >= 1.22 per-iteration loop variables"},
         "explanation": "every declaration is initialised from a distinct symbolic term (parameter + unique constant), so a reference resolved to the wrong variable yields a different term and the solver produces a distinguishing input; log = yields + value effects of every variable at the end of its scope",
     }
-    return corpus_check(ctx, "c03", build, K, 0, extra, [REF_ASSUMPTION, PROGRAM_DIM], floors={"drivers_holds": ctx.q(100, 1000)})
+    # the same loop-variable shapes under go >= 1.22 semantics (per-iteration variables): a second
+    # workspace whose go.mod says go 1.22; go/ssa and the go compiler both follow the file version
+    ctx22 = runner.SubCtx(ctx, "ws22", "1.22")
+
+    def build22(corp):
+        n = 0
+        for name, body in directed_c03():
+            if "captured" not in name and name not in ("closure_in_loop", "closure_sees_update", "for_post_scope", "init_after_yield", "range_shadow"):
+                continue
+            tags = {"directed:" + name, "go1.22"}
+            if name.startswith("for_var_captured"):
+                tags.add("for-var-captured-per-iteration-go122")  # F8
+            corp.add(gen.Program("e_%s" % name, body, named_result=(n % 2 == 0), family="scp22", tags=tags))
+            n += 1
+        return {"go122_programs": n, "go_version": "1.22 (per-iteration loop variables)"}
+
+    run22 = corpus_run(ctx22, "c03v", build22, K, 0)
+    extra["bounds"]["outside"] = "program shapes not generated; closures escaping the generator (C06/C13); under go >= 1.22 semantics only the directed loop-variable shapes"
+    return corpus_check(ctx, "c03", build, K, 0, extra, [REF_ASSUMPTION, PROGRAM_DIM], floors={"drivers_holds": ctx.q(100, 1000)}, more_runs=[run22])
 
 
 CLAIMED["C03"] = plan_C03
@@ -1022,8 +1052,24 @@ def plan_C13(ctx):
         "bounds": {"ints": "64-bit symbolic a, b; guard symbolic", "outside": "bystander shapes not generated; comments and compiler directives carried by comments (//go:embed, //go:noinline: seed C13_r3 is not caught), embedded files, side-effect imports; one processed file per program"},
         "explanation": "every file holds a generator (so the file is processed) and bystander declarations; drivers call the bystanders with symbolic arguments in the source package and in the generated package; log = results; flat equality. A type error in the generated file (the source type-checks) is a front-end refutation.",
     }
+    # go >= 1.22 sources (per-iteration loop variables): plain functions, and ordinary closures nested
+    # in generator bodies, whose three-clause loops must keep one variable per iteration
+    ctx22 = runner.SubCtx(ctx, "ws22", "1.22")
+    NESTED = "mk := func(m int) (fs []func() int) {\n\tfor i := 0; i < m; i++ {\n\t\tfs = append(fs, func() int { return i + a })\n\t}\n\treturn\n}"
+    NESTED2 = "sum := func(m int) int {\n\tvar fs []func() int\n\tfor i, j := 0, m; i < j; i, j = i+1, j-1 {\n\t\tfs = append(fs, func() int { return i*8 + j })\n\t}\n\tt := 0\n\tfor _, f := range fs {\n\t\tt = t*64 + f()\n\t}\n\treturn t\n}"
+
+    def build22(corp):
+        ps = gen.c13_programs(gen.C13_BODIES_22)
+        ps.append(gen.Program("n_closure_for_in_generator", [("raw", NESTED), ("yield", "a"), ("raw", "for _, f := range mk(n) {\n\tYield(f() + 1)\n}")], named_result=True, family="bys22", tags={"bystander:closure-in-generator", "go1.22"}))
+        ps.append(gen.Program("n_closure_for2_in_generator", [("raw", NESTED2), ("yield", "sum(n + 2) + b"), ("yield", "sum(4)")], named_result=True, family="bys22", tags={"bystander:closure-in-generator", "go1.22"}))
+        ps.append(gen.Program("n_closure_for_in_generator_after_yield", [("yield", "a"), ("if", "g1", [("raw", NESTED), ("raw", "for _, f := range mk(n) {\n\tYield(f() + 1)\n}")], None), ("yield", "b")], named_result=True, family="bys22", tags={"bystander:closure-in-generator", "go1.22"}))
+        for p in ps:
+            corp.add(p)
+        return {"go122_programs": len(ps), "go_version": "1.22 (per-iteration loop variables)"}
+
+    run22 = corpus_run(ctx22, "c13v", build22, 6, 0, unbuildable_is_violation=True)
     return corpus_check(ctx, "c13", build, 4, 0, extra, [PROGRAM_DIM, "bystanders do not use the co API, so the reference side is ordinary Go"],
-                        floors={"drivers_holds": 10}, unbuildable_is_violation=True)
+                        floors={"drivers_holds": 10}, unbuildable_is_violation=True, more_runs=[run22])
 
 
 CLAIMED["C13"] = plan_C13
